@@ -13,7 +13,7 @@ T = {
  'listen-in-loop': ('X is 0\nWhile X is less than 2\nBuild X up\nListen to L\nsay L\n\nsay "end"\n', {}),
  'error-between': ('say "a"\nListen to X\nsay Zed plus 9001\nsay "b"\nListen to Y\n', {'n1': {}}),
 }
-BOUNDS = {'generated programs': 'every sequence of <= 2 (thorough 3) I/O statements out of 20: {say constant, say X, Listen to X, Listen} x {bare, in a taken branch, in a 2-pass loop, in a function called as a statement, in a function called inside an expression}, then X is printed; input 0..=2 lines (opaque strings; and, for sequences of <= 1 (thorough 2), a bounded first line of 0..=2 symbolic characters incl. blanks, CR and multi-byte characters, further lines constant), a single line with / without terminator; one fault plan per path: output fails from call k on (returning an error, or accepting no more bytes: Ok(0)), or input fails from call k on, or no fault; the order of all stream calls is compared too',
+BOUNDS = {'generated programs': 'every sequence of <= 2 (thorough 3) I/O statements out of 20: {say constant, say X, Listen to X, Listen} x {bare, in a taken branch, in a 2-pass loop, in a function called as a statement, in a function called inside an expression}, then X is printed; input 0..=2 lines (opaque strings; and, for sequences of <= 1 (thorough 2; quick also the 2-statement sequences of bare statements), a bounded first line of 0..=2 symbolic characters incl. blanks, CR and multi-byte characters, further lines constant), a single line with / without terminator; one fault plan per path: output fails from call k on (returning an error, or accepting no more bytes: Ok(0)), or input fails from call k on, or no fault; the order of all stream calls is compared too',
           'programs': 'plus the %d templates of this file' % len(T), 'input': '0..=3 input lines of any text without line feed, the last with or without terminator (fewer lines than `listen`s: end of input)',
           'faults': 'the output stream fails from its k-th call on for every k (or never); likewise the input stream', 'observables': 'every write call and its text, every read call, the outcome'}
 OUTSIDE = ['byte-level behaviour of BufReader / writeln! (std)', 'carriage returns', 'the CLI wiring (C20)']
@@ -83,7 +83,7 @@ def h_ioshape(vm, mir, chunk, bounded):
     of, inf, mode = plans[vm.fork(len(plans), note='fault-plan')]
     d0 = describe_holes({}, stdin)
     vm.describe = lambda m: dict(d0(m), program=text, out_fail_at=of, in_fail_at=inf, out_fail_mode=mode, in_first_chunk_bytes=getattr(vm, 'io_first_chunk_bytes', None))
-    return run_both(vm, mir, prog, stdin, of, inf, describe=vm.describe, real_lines=(real if bounded else None), out_fail_mode=mode, chunked=bounded)
+    return run_both(vm, mir, prog, stdin, of, inf, describe=vm.describe, real_lines=(real if bounded else None), out_fail_mode=mode, chunked=(bounded and inf is None))      # a chunked delivery costs the reader an extra underlying read, which an input fault plan counted in reads would hit: the two are explored separately
 
 
 def jobs(ctx, tier):
@@ -95,6 +95,9 @@ def jobs(ctx, tier):
         js.append(Job(f'io-shapes/{k}', h_ioshape, (mir, ch, False), witness=['run-done'], fuel=20_000_000, weight=20))
     for k, ch in enumerate(chunks(preparse(ctx, io_shapes(1 if q else 2)), 2)):
         js.append(Job(f'io-shapes-bounded-lines/{k}', h_ioshape, (mir, ch, True), witness=['run-done'], fuel=20_000_000, weight=20, str_mode='bounded'))
+    if q:      # two-statement sequences on bounded (chunk-delivered) lines: bare statements only (thorough runs all 420 above)
+        for k, ch in enumerate(chunks(preparse(ctx, io_shapes(2, wrappers=(0,), min_len=2)), 2)):
+            js.append(Job(f'io-shapes-bounded-lines-2/{k}', h_ioshape, (mir, ch, True), witness=['run-done'], fuel=20_000_000, weight=20, str_mode='bounded'))
     return js
 
 
